@@ -10,6 +10,7 @@ import (
 	"hash/fnv"
 	"io/ioutil"
 	"os"
+	"runtime/debug"
 	"sort"
 	"strconv"
 	"strings"
@@ -336,13 +337,47 @@ func Main() (ran bool, err error) {
 	func() {
 		defer func() {
 			if r := recover(); r != nil {
-				c.Fail("harness panic: %v", r)
+				where, inCUT := panicSite(string(debug.Stack()))
+				if inCUT {
+					// the code under test panicked on an input the harness considers ordinary
+					c.res.Exhaustive = false
+					c.Violation(fmt.Sprintf("%s panic in code under test at %s", c.Job, where), fmt.Sprintf("case %d: panic in the code under test: %v (at %s); stage %q", c.curIndex, r, where, c.stage), map[string]interface{}{"panic": fmt.Sprint(r), "site": where})
+				} else {
+					c.Fail("harness panic: %v at %s", r, where)
+				}
 			}
 		}()
 		f(c)
 	}()
 	c.Finish()
 	return true, nil
+}
+
+// panicSite finds the frame that raised the panic and says whether it belongs to the code under
+// test (a repository source file) rather than to harness / model / runtime code.
+func panicSite(stack string) (string, bool) {
+	lines := strings.Split(stack, "\n")
+	seenPanic := false
+	for i := 0; i+1 < len(lines); i++ {
+		ln := lines[i]
+		if strings.HasPrefix(ln, "panic(") {
+			seenPanic = true
+			continue
+		}
+		if !seenPanic || strings.HasPrefix(ln, "\t") {
+			continue
+		}
+		loc := strings.TrimSpace(lines[i+1])
+		if strings.HasPrefix(ln, "runtime.") || strings.HasPrefix(ln, "runtime/") {
+			continue
+		}
+		if j := strings.Index(loc, " +0x"); j >= 0 {
+			loc = loc[:j]
+		}
+		harness := strings.Contains(loc, "zz_verif") || strings.Contains(loc, "zzverif") || strings.Contains(loc, "/verif/") || !strings.Contains(ln, "oasisprotocol/ed25519")
+		return loc, !harness
+	}
+	return "unknown", false
 }
 
 // Rng is a small deterministic generator (xorshift64*) for alphabet members that are "DRBG
